@@ -309,11 +309,13 @@ class Project:
                     raise AnalysisError('cannot parse %s: %s' % (rel, e))
         # entities that were renamed everywhere relative to the reviewed tree are mapped back to their reviewed names (names.py)
         self.renames = {}
+        self.unchanged_defs = set()
         if not os.environ.get('EMSA_NO_RENAMES'):
             from . import names
             trees = {n: m.tree for n, m in self.modules.items()}
             self.renames = names.rename_maps(trees)
             names.apply(trees, self.renames)
+            self.unchanged_defs = names.unchanged_defs(trees)
 
     def _index(self):
         for m in self.modules.values():
